@@ -38,7 +38,7 @@ FUNCS = ["CreateFileA", "WriteFile", "CloseHandle", "GetMenu", "HideCaret", "Exi
 
 
 def shards(tier, seed, scale):
-    per = 80 if tier == "quick" else 2500
+    per = 80 if tier == "quick" else 1500
     return common.mk_shards(16, seed, tier, per, scale, salt="c42")
 
 
